@@ -297,7 +297,7 @@ impl Property for C20 {
         vec!["functional classes outside V (d-text-outside, d-text-vertical, d-surround, ...) and rule order / CSS validity are not judged".into()]
     }
     fn families(&self, tier: Tier) -> Vec<Family<Case>> {
-        vec![Family::enumerated("vocabulary-singletons", singletons()), Family::random("subsets", tier.n(20_000, 150_000), fam_subsets)]
+        vec![Family::enumerated("vocabulary-singletons", singletons()), Family::random("subsets", tier.n(20_000, 450_000), fam_subsets)]
     }
     /// "nothing is injected when automatic styles are switched off" through the command's own options
     fn parent_phase(&self, tier: Tier, seed: u64) -> crate::engine::ParentPhase {
